@@ -1658,7 +1658,8 @@ def D4(ctx, rule="D4"):
     for bid in m.reach(eqb.id):
         b = fb.bodies[bid]
         for bb, t in b.calls():
-            if callee_path(t) in ("std::iter::Iterator::try_fold", "std::iter::Iterator::all", "std::iter::Iterator::eq", "std::iter::Iterator::fold"):
+            if callee_path(t) in ("std::iter::Iterator::try_fold", "std::iter::Iterator::all", "std::iter::Iterator::eq", "std::iter::Iterator::fold",
+                                  "std::iter::Iterator::find_map", "std::iter::Iterator::any", "std::iter::Iterator::position", "std::iter::Iterator::find"):
                 chain = iterator_chain(ctx, b, expr_operand(b, t["args"][0]))
                 names = [c[0] for c in chain]
                 sel = [n for n in names if n in SELECTIVE_ITER]
@@ -1672,6 +1673,80 @@ def D4(ctx, rule="D4"):
     ctx.check(zips >= 2, rule, "zips", where, "edges and functions are compared pairwise (2 zipped sequences)", "expected 2 zipped comparisons, found %d" % zips)
 
 
+def difference_search(ctx, b, bb, t):
+    """`zip(..).find_map(|(x, y)| (!(x == y)).then_some(D))` / `.any(|(x, y)| x != y)`: a search for the first unequal pair.
+    The closure must report a hit on every path on which one of its comparisons is false, and only then."""
+    p = callee_path(t)
+    fcl = closure_of_arg(ctx, b, expr_operand(b, t["args"][1])) if len(t["args"]) > 1 else None
+    if fcl is None or len(fcl.exits()) != 1:
+        return False, "search closure not found"
+    cmps = {}
+    for cbb, ct in fcl.calls():
+        cp = callee_path(ct)
+        if cp in ("std::cmp::PartialEq::eq", "std::cmp::PartialEq::ne"):
+            cmps[("call", cbb)] = cp
+    if not cmps:
+        return False, "the search closure compares nothing"
+    # the boolean that decides the hit
+    defs = get_defs(fcl)
+    hit_local, neg, at_bb = None, False, fcl.exits()[0]
+    if p == "std::iter::Iterator::find_map":
+        ts = [(cbb, ct) for cbb, ct in fcl.calls() if (callee_path(ct) or "").endswith("::then_some")]
+        if len(ts) != 1 or ts[0][1]["args"][0]["k"] == "const":
+            return False, "find_map closure is not `cond.then_some(..)`"
+        at_bb = ts[0][0]
+        hit_local = ts[0][1]["args"][0]["pl"]["l"]
+    else:
+        hit_local = 0
+    # peel `!x`
+    for _ in range(3):
+        d = defs.unique_full(hit_local)
+        if d and d[0] == "stmt" and d[3]["rv"]["k"] == "unop" and d[3]["rv"]["op"] == "Not" and d[3]["rv"]["a"]["k"] != "const":
+            neg = not neg
+            hit_local = d[3]["rv"]["a"]["pl"]["l"]
+        elif d and d[0] == "stmt" and d[3]["rv"]["k"] == "use" and d[3]["rv"]["op"]["k"] != "const" and not d[3]["rv"]["op"]["pl"]["p"]:
+            hit_local = d[3]["rv"]["op"]["pl"]["l"]
+        else:
+            break
+    pcs = path_conditions(fcl, at_bb, watch=[hit_local])
+    if not pcs:
+        return False, "cannot enumerate the paths of the search closure"
+    for pc in pcs:
+        # is some comparison unequal on this path?
+        unequal = False
+        undecided = []
+        for sym, cp in cmps.items():
+            if sym in pc:
+                truth = pc[sym] != "0"
+                if (cp.endswith("::eq") and not truth) or (cp.endswith("::ne") and truth):
+                    unequal = True
+            else:
+                undecided.append(sym)
+        v = pc.get("$L%d" % hit_local)
+        if v is None:
+            return False, "value of the hit flag unknown"
+        if v[0] == "const":
+            val = str(v[1]) in ("1", "true")
+        elif v in cmps and not unequal:
+            # the flag is the last comparison's own result
+            cp = cmps[v]
+            # flag true <=> comparison call returned true
+            hit_if_true = (cp.endswith("::ne")) != neg
+            hit_if_false = (cp.endswith("::eq")) != neg
+            # equal pair must be no hit, unequal pair must be a hit
+            eq_truth = cp.endswith("::eq")       # call returns true on an equal pair iff it is `eq`
+            hit_on_equal = (eq_truth != neg) if True else None
+            if hit_on_equal:
+                return False, "an equal pair counts as a difference"
+            continue
+        else:
+            return False, "hit flag is `%s` on some path" % (v,)
+        hit = (val != neg)
+        if hit != unequal:
+            return False, "the search reports %s on a path where the pair is %s" % ("a difference" if hit else "no difference", "unequal" if unequal else "equal")
+    return True, "%s that stops at the first unequal pair" % p.split("::")[-1]
+
+
 def conjunctive_consumer(ctx, b, bb, t):
     """The consumer of a zipped comparison lets a single unequal pair decide:
     all / Iterator::eq by definition; try_fold when the closure short-circuits
@@ -1681,6 +1756,8 @@ def conjunctive_consumer(ctx, b, bb, t):
     p = callee_path(t)
     if p in ("std::iter::Iterator::all", "std::iter::Iterator::eq"):
         return True, p.split("::")[-1]
+    if p in ("std::iter::Iterator::find_map", "std::iter::Iterator::any", "std::iter::Iterator::position", "std::iter::Iterator::find"):
+        return difference_search(ctx, b, bb, t)
     fcl = closure_of_arg(ctx, b, expr_operand(b, t["args"][2])) if len(t["args"]) > 2 else None
     if fcl is None:
         return False, "fold closure not found"
